@@ -346,6 +346,6 @@ def t_dir(shard, nshards, seed, ev, known, n=60):
 def plan(tier):
     q = tier == "quick"
     return [
-        Task("text", t_text, shards=8 if q else 16, n=300 if q else 25000),
+        Task("text", t_text, shards=8 if q else 16, n=300 if q else 12000),
         Task("dir", t_dir, shards=3 if q else 8, n=80 if q else 1500),
     ]
